@@ -14,6 +14,7 @@ import Driver.C11
 import Driver.C12
 import Driver.C06
 import Driver.C13
+import Driver.C17
 
 open Driver Relic.Model
 
@@ -31,6 +32,7 @@ structure Conf where
   ebmap : Option C13.Eb.Env := none
   edmap : Option C13.Ed.Env := none
   ep2map : Option C13.Ext.Env := none
+  ed : Option C17.Env := none
 
 def parseCfg (toks : List String) : Conf :=
   toks.foldl (fun c t =>
@@ -62,6 +64,8 @@ def dispatch (c : Conf) (op : String) (args : List String) (got : String) : Opti
     | some e => C13.Ed.handle e op args got
     | none => none) <|> (match c.ep2map with
     | some e => C13.Ext.handle e op args got
+    | none => none) <|> (match c.ed with
+    | some e => C17.handle e c.w op args got
     | none => none)
 
 def processLine (c : Conf) (line : String) : String :=
@@ -181,6 +185,18 @@ partial def loop (h : IO.FS.Stream) (out : IO.FS.Stream) (c : Conf) : IO Unit :=
       | none =>
         out.putStrLn (if got == "err" then "ok eb_map_param-rejected" else "FAIL S model=[] spec=[parsable eb_map_param] got=[" ++ got ++ "]")
         loop h out { c with ebmap := none }
+    | _ => out.putStrLn "skip"; loop h out c
+  else if line.startsWith "ed_param " then
+    match line.splitOn " => " with
+    | [_, got] =>
+      match C17.parseEnv c.w got with
+      | some e =>
+        let bad := C17.checkParam e
+        out.putStrLn (if bad.isEmpty then "ok ed_param" else "FAIL S model=[] spec=[" ++ String.intercalate ";" bad ++ "] got=[" ++ got ++ "]")
+        loop h out { c with ed := some e }
+      | none =>
+        out.putStrLn (if got == "err" then "ok ed_param-rejected" else "FAIL S model=[] spec=[parsable ed_param] got=[" ++ got ++ "]")
+        loop h out { c with ed := none }
     | _ => out.putStrLn "skip"; loop h out c
   else if line.startsWith "fp_param " then
     -- the running library reports the active field; the derived constants are checked here
